@@ -24,7 +24,7 @@ func init() {
 			"(5) ref-under-lock: every TSMFile.Ref in the package is made by a FileStore method or newKeyCursor while a lock of that FileStore is held (so Replace, which needs both write locks, cannot close the file in between) — one named exception: the goroutines of FileStore.Apply, accepted because Apply is checked to receive cap(errC) results, one send per goroutine exit, before any RUnlock; " +
 			"(6) ref-pairing: newKeyCursor refs the file of every location it stores in seeks; KeyCursor.Close unrefs every one of them before it clears seeks; WalkKeys/Apply/CreateSnapshot pair every Ref with a deferred Unref of the same file before the next Ref or any exit; FileStore.TSMReader returns a non-nil reader only after Ref on it and Compactor.compact defers Unref of every reader it obtained; " +
 			"(7) direction-dispatch: ascending selects ascLocations/seekAscending/nextAscending and !ascending the desc variants; both Less functions compare the same projection of a[i] and a[j], overlapping entries by file path.",
-		NotCovered:  "the merged values (window expansion, markRead, Include/Exclude, dedup) — value-level; sibling uniformity of file_store.gen.go / file_store_array.gen.go (E6, built separately); that every KeyCursor a caller obtains is eventually closed; deadlock freedom of the two-lane lock; conditional defers are treated as executed by fs-lock-balance.",
+		NotCovered:  "the merged values themselves: the window arithmetic of Read*Block (which bound is widened/narrowed by which block, the arguments of markRead/Include/Exclude, < versus <=) and Values.Merge/Deduplicate are value-level — (13) only decides on which edges a block is dropped, skipped, decoded, filtered, merged, marked and returned; off-by-one of the seek-time comparisons in locations/seek*; loop bounds that would index out of range; that every KeyCursor a caller obtains is eventually closed; deadlock freedom of the two-lane lock beyond per-function balance (9).",
 		Assumptions: []string{"sync.RWMutex semantics", "a function literal that is not started with `go` runs with the locks held where it is written"},
 		Run:         runC06,
 	})
